@@ -8,7 +8,7 @@ ID = 'C04'
 HARNESS_BIN = 'c04'
 RUN_MODULE = 'Run.C04'
 COQ_EXTRA = []
-THEOREMS = ['C04_lookup_sound', 'C04_input_digest_sound', 'C04_pp_key_parts_sound', 'C04_record_sound', 'C04_scan_exact', 'C04_scan_no_false_negative',
+THEOREMS = ['C04_lookup_sound', 'C04_input_digest_sound', 'C04_pp_key_parts_sound', 'C04_record_sound', 'C04_record_instant_sound', 'C04_scan_exact', 'C04_scan_no_false_negative',
             'C04_scan_chunk_independent', 'C04_digest_chunk_independent', 'C04_mode_equivalence', 'C04_markers_complete']
 ASSUMPTIONS = [
     'BLAKE3 is modelled as an injective function H on file contents and an injective function HT on the '
@@ -32,11 +32,17 @@ ASSUMPTIONS = [
     'the date used when recording is the date at the instant of recording (a compile that runs across midnight can '
     'record the next day; same window as in ccache) and SOURCE_DATE_EPOCH is read from the SERVER environment '
     '(the client strips it from the forwarded environment, src/cmdline.rs)',
+    'C04_record_instant_sound: environment writes set the ctime of the file to the (non-decreasing) clock value of the '
+    'write and cannot backdate it; the clock that stamps files is the clock start_of_compilation is read from',
     'C04_markers_complete covers outputs made of `# N "path" flags` and body lines (wf_line); the `#line` / '
     '`#pragma GCC pch_preprocess` syntaxes, the GCC-6 # 31/# 32 lines, .incbin and distcc-pump chatter are modelled '
     '(Model/LineMarker.v) and checked differentially only',
 ]
 TRUSTED = [
+    'translator/c04_consts.py also transcribes the SOURCE ORDER of the three prelude steps of generate_hash_key (take '
+    'start_of_compilation / compiler.preprocess / process_preprocessed_file+add_result with that variable) into '
+    'Gen prelude_order; that the order is [take; preprocess; record] is the proof obligation prelude_order_ok; source '
+    'order is taken for execution order (straight-line code, checked end to end by the compiler-shim scenarios)',
     'translator/c04_consts.py (HASH_BUFFER_SIZE, MAX_HAYSTACK_LEN, the three time-macro patterns, the two manifest limits)',
     'hooks: compiler::c::verif_remember_include_file / verif_include_is_too_new / verif_process_preprocessed_file, '
     'PreprocessorCacheEntry::verif_view (read-only)',
@@ -1058,13 +1064,44 @@ def extra(rep, known):
             bad += 1
         else:
             rep.distinct.add('e2e:args:%s:%d' % (n, sw))
-    rep.legs['e2e'] = dict(cases=len(scen) + 1 + len(ascen), disagreements=bad, wall_s=round(time.time() - t0, 1))
-    rep.oblige('correspondence:e2e', bad == 0, '%d scenarios (real sccache server + gcc), %d bad' % (len(scen) + 1 + len(ascen), bad))
+    # a header is saved while a compile that includes it is in flight (compiler shim; deterministic)
+    with ThreadPoolExecutor(max_workers=4) as ex:
+        rres = list(ex.map(lambda v: c04_e2e.run_race(sccache, v), c04_e2e.RACE_VARIANTS))
+    for r in rres:
+        rep.evaluations += 1
+        rep.traces += 1
+        rep.count('e2e.race=' + r['variant'])
+        tag = sx.dumps([b'race', r['variant'].encode()])
+        broken = [(w, hdr) for w, ok, hdr in r['judged'] if not ok]
+        if not r['fired'] or any(not ok for w, ok, hdr in r['judged'][:2]):
+            rep.violation('correspondence', 'e2e', tag, 'scenario did not run as intended: %r' % (r,))
+            bad += 1
+        elif broken:
+            rep.violation('property', 'e2e', tag,
+                          'cfg.h was saved %s the preprocessor run of an earlier request (compiler shim); a LATER request, made '
+                          'when nothing was being edited any more, got an object that differs from a direct gcc compile of the '
+                          'current files: %s (the racy request %s)'
+                          % ({'after': 'right after', 'slow_after': '0.3 s after', 'during': 'during', 'before': 'just before'}[r['variant']],
+                             '; '.join('%s [%s]' % b for b in broken),
+                             'recorded a manifest entry' if r['racy_recorded'] else 'recorded nothing'))
+            bad += 1
+        elif not r['racy_gave_up'] or r['racy_recorded']:
+            rep.violation('correspondence', 'e2e', tag,
+                          'the model (C04_record_instant_sound: the start instant is taken before the preprocessor starts) says the '
+                          'racy request must find cfg.h too new and record nothing; the server log says gave_up=%s recorded=%s'
+                          % (r['racy_gave_up'], r['racy_recorded']))
+            bad += 1
+        else:
+            rep.distinct.add('e2e:race:' + r['variant'])
+    rep.legs['e2e'] = dict(cases=len(scen) + 1 + len(ascen) + len(rres), disagreements=bad, wall_s=round(time.time() - t0, 1))
+    rep.oblige('correspondence:e2e', bad == 0, '%d scenarios (real sccache server + gcc), %d bad' % (len(scen) + 1 + len(ascen) + len(rres), bad))
     rep.rule.append('e2e: %d configurations x %d header edits; object of the second compile == direct gcc compile, '
                     'and the server log\'s direct-mode hit/miss == model; -I../inc with a decoy; %d scenarios where only '
-                    '-I/-D/-include/-isystem/CPATH/C_INCLUDE_PATH change (incl. boundary-shift pairs with equal concatenation)'
-                    % (len(cfgs), len(c04_e2e.EDITS), len(ascen)))
-    pipeline.log('leg e2e: %d scenarios, %d bad, %.1fs' % (len(scen) + 1 + len(ascen), bad, time.time() - t0))
+                    '-I/-D/-include/-isystem/CPATH/C_INCLUDE_PATH change (incl. boundary-shift pairs with equal concatenation); '
+                    '%d compiler-shim scenarios where a header is saved before / during / after the preprocessor run of an '
+                    'in-flight request and three later requests are judged'
+                    % (len(cfgs), len(c04_e2e.EDITS), len(ascen), len(rres)))
+    pipeline.log('leg e2e: %d scenarios, %d bad, %.1fs' % (len(scen) + 1 + len(ascen) + len(rres), bad, time.time() - t0))
 
 
 def legs(tier):
